@@ -48,7 +48,7 @@ class Spec(core.PropSpec):
             company.update(B=w["B"], budget=list(w["budget"]), consume="interleaved")  # the uninterrupted twin, taking turns
         overlap = [[rc.randint(0, 12), rc.randint(1, 4)]] if rc.random() < 0.15 else None
         return dict(world=w, preemptions=pre, all_checkpoints=rf.random() < 0.5, foreign_epoch=rf.choice([None, None, 97, 0]),
-                    reiterate=rf.random() < 0.25, company=company, overlap=overlap)
+                    reiterate=rf.random() < 0.25, company=company, overlap=overlap, ship=core.Streams(seed)("ship").random() < 0.2)
 
     def shrink_candidates(self, plan):
         if plan.get("all_checkpoints"):
@@ -57,6 +57,8 @@ class Spec(core.PropSpec):
             yield dict(plan, company=None)
         if plan.get("overlap"):
             yield dict(plan, overlap=None)
+        if plan.get("ship"):
+            yield dict(plan, ship=False)
         yield from T.world_candidates(plan)
         yield from super().shrink_candidates(plan)
 
@@ -119,7 +121,9 @@ class Spec(core.PropSpec):
                 out.count("fault:preemption_in_chain")
             try:
                 res, term = T.run_sampler(w, start={field: val}, cap=len(suffix) + 50, foreign_epoch=plan.get("foreign_epoch"),
-                                          company=plan.get("company"), overlap=plan.get("overlap"))
+                                          company=plan.get("company"), overlap=plan.get("overlap"), ship=bool(plan.get("ship")))
+                if plan.get("ship"):
+                    out.count("fault:resumed_sampler_object_copied_before_use")
                 if plan.get("company"):
                     out.count("fault:config_objects_shared_with_second_sampler")
                 if plan.get("overlap"):
